@@ -7,6 +7,8 @@ HARNESSES = {
     'cq': dict(sources=['src/h_cq.cpp']),
     'remover': dict(sources=['src/h_remover.cpp']),
     'heter': dict(sources=['src/h_heter.cpp']),
+    'anyid': dict(sources=['src/h_anyid.cpp']),
+    'anydata': dict(sources=['src/h_anydata.cpp', 'src/h_anydata_m1.cpp', 'src/h_anydata_m24.cpp', 'src/h_anydata_m32.cpp', 'src/h_anydata_m64.cpp']),
 }
 
 
@@ -190,6 +192,24 @@ prop('C14', 'exploration',
      'expected prototype indices are a hand-written table; oracle = per-prototype list models, argument summaries, exactly-once FIFO, processIf examines only its prototypes and leaves the rest in place; '
      'built with clang++ and g++; non-trivial = a processIf with an event of a foreign prototype pending, on a queue where a slot was recycled across prototypes',
      COMMON_ASSUME + ['prototype lists are the three rows of the table', 'which of the matching prototypes a multi-prototype predicate examines is left open (only "never a foreign one, never twice, dispatch iff true")'],
+     q, t)
+
+q, t = std_stages('anydata', 2000, 100000, enum=True)
+prop('C17', 'exploration',
+     'type table P<N,kind>: N in {1,2,4,7,8,15,16,17,23,24,25,31,32,33,63,64,65,100,256} x kind in {trivial bytes, ledgered copy+move, ledgered move-only, shared_ptr holder} x AnyData capacities {1 (=16), 24, 32, 64}, '
+     'so every capacity has N = M-1, M, M+1. Bounded-exhaustive: every (N, kind, capacity, construction form) with a fixed move/queue script (912 cases); random: generated chains of moves, reads and EventQueue round trips with '
+     'slots recycled between payloads of very different size. Oracle: value equality, stable address, conversions, isType true exactly for the stored type, <=1 move per hop, move-only never copied, use_count, ledger exactly-once, ASan/UBSan; '
+     'non-trivial = size within +-1 of the capacity or beyond it, a non-trivial kind, and >=2 moves or a queue round trip',
+     COMMON_ASSUME + ['over-aligned types (alignment > 8) are outside the table', 'takeEvent/peekEvent are not generated: AnyData is not assignable, so QueuedEvent cannot be taken by value'],
+     q, t)
+
+q, t = std_stages('anyid', 1500, 50000, enum=True)
+prop('C18', 'exploration',
+     'AnyId<Digester, Storage> for Digester in {std::hash, hash mod 4 (forced collisions), constant} x Storage in {EmptyAnyStorage, opaque storage (neither == nor <), tagged value storage (both)}; value pool of 24 values over '
+     'int/long/unsigned/char/bool/enum/std::string/user struct chosen to collide (int 5, long 5, unsigned 5, enum 5; equal strings; ""). Bounded-exhaustive: all 24^2 pairs and 24^3 triples per configuration '
+     '(equivalence, strict weak order, incomparability classes == equality classes, equal ids hash equally, collisions stay distinct with value storage / ids equal iff digests equal without) and dispatch through std::map and '
+     'std::unordered_map dispatchers against a linear-search model; random: generated law and dispatch cases; non-trivial = the case contains a digest collision between different values',
+     COMMON_ASSUME + ['the value universe is the 24-value pool over 8 types'],
      q, t)
 
 
